@@ -305,7 +305,7 @@ type script struct {
 
 var bgSpec = regexp.MustCompile(`^&([a-zA-Z_0-9]+&)?$`)
 
-var varNames = []string{"A", "B", "VAR_1", "x", "_u", "LONGER_NAME9"}
+var varNames = []string{"A", "AB", "B", "VAR_1", "VAR_12", "x", "_u", "LONGER_NAME9"} // some names are prefixes of others
 
 func genValue(r *rand.Rand) string {
 	switch r.Intn(4) {
